@@ -166,7 +166,10 @@ func slotsToCaptures(slots []int) [][]int {
 // This method is optimized for patterns like \w+, \d+, [a-z]+ where matches are frequent.
 func (e *Engine) FindAllIndicesStreaming(haystack []byte, n int, results [][2]int) [][2]int {
 	// Only CharClassSearcher benefits from streaming - others use standard loop
-	if e.strategy != UseCharClassSearcher || e.charClassSearcher == nil || e.longest {
+	// With a match limit the loop is used too: the streaming pass has no limit,
+	// it collected every match of the haystack (growing the caller's buffer)
+	// and truncated the result afterwards.
+	if e.strategy != UseCharClassSearcher || e.charClassSearcher == nil || e.longest || n > 0 {
 		return e.findAllIndicesLoop(haystack, n, results)
 	}
 
